@@ -1,6 +1,6 @@
 (** C10 — changing representation loses nothing: the obligations, written out in full. *)
 From Coq Require Import List NArith ZArith String.
-From SK Require Import lib.LGraph lib.StrJoin model.C10_Model proof.C10_Proof proof.C10_Hydrogen proof.C10_Routes proof.C10_GmlWrite proof.C10_HRound proof.C10_Routes2 proof.C10_Reindex proof.C10_MolGraph proof.C10_Smart proof.C10_GmlEH proof.C10_Select proof.C10_MolOk proof.C10_Full proof.C10_Attrs proof.C10_Light proof.C10_ReindexEH.
+From SK Require Import lib.LGraph lib.StrJoin model.C10_Model model.C10_Text proof.C10_Text proof.C10_Proof proof.C10_Hydrogen proof.C10_Routes proof.C10_GmlWrite proof.C10_HRound proof.C10_Routes2 proof.C10_Reindex proof.C10_MolGraph proof.C10_Smart proof.C10_GmlEH proof.C10_Select proof.C10_MolOk proof.C10_Full proof.C10_Attrs proof.C10_Light proof.C10_ReindexEH.
 Import ListNotations.
 Local Open Scope Z_scope.
 
@@ -375,3 +375,25 @@ Theorem C10_graph_to_mol_options :
      atoms = map (fun p : N * natt => g2m_atom (snd p)) (gnodes g)).
 Proof. split; [exact graph_to_mol_gen_default|exact graph_to_mol_gen_atoms]. Qed.
 Print Assumptions C10_graph_to_mol_options.
+
+(** THE TEXT LAYER.  [render name r] is the text NXToGML writes for a record (its f-strings), [text_parse] is the tokenisation
+    of GMLToNX.transform / _parse_element (split on newline, strip, "rule" and "]" lines skipped, section detection by
+    substring, str.split(), tokens.index(key) + 1, int(), strip of the double quotes, 'node in line' tested before 'edge in
+    line').  For every rule name without a newline and every record whose entries are in the domain [rec_okb] — labels
+    without whitespace and without a double quote (the bond labels - = # : and element+charge labels are), and no rendered
+    line containing a section keyword (nor, for an edge, the word node) — the reader recovers exactly the entries of the
+    record, section by section and in order.  Labels outside the domain are really not read back (proof/C10_Text.v
+    text_roundtrip_needs_ok: a label spelling a keyword turns the line into a section header). *)
+Theorem C10_text_roundtrip :
+  forall (name : str) (r : grec), ~ In 10%N name -> rec_okb r = true -> text_parse (render name r) = Some (flatten r).
+Proof. exact text_roundtrip. Qed.
+Print Assumptions C10_text_roundtrip.
+
+(** ... hence reading the rendered text gives exactly the three graphs of the record layer, about which all the GML
+    theorems above are stated (C10_gml_roundtrip*, C10_two_routes_*, C10_smart_roundtrip hold verbatim for
+    option_map snd (text_to_nx (render name (its_to_gml ...))) whenever the written record is in [rec_okb], which the
+    correspondence monitors on every export). *)
+Theorem C10_text_reads_record :
+  forall (name : str) (r : grec), ~ In 10%N name -> rec_okb r = true -> text_to_nx (render name r) = Some (gml_to_nx r).
+Proof. exact text_to_nx_render. Qed.
+Print Assumptions C10_text_reads_record.
